@@ -329,3 +329,31 @@ def encoders_return_fresh_buffers(chk, repo: Repo, classes: list[ClassInfo]) -> 
                 chk.ob("encoder-returns-a-buffer-of-its-own", tk.site(rn.ast), why is None, f"{c.name}.to_knx returns `{ast.unparse(rn.ast.value)[:80]}`" + (f": {why}; CEMILData.to_knx writes the transport bits into it in place" if why else ": built in the call"), key=f"fresh|{c.name}")
     chk.floor("encoder return sites checked for aliasing", n, 80)
     return stale
+
+
+def received_pdus_can_be_serialised_again(chk, repo: Repo) -> None:
+    """"Re-serializing a received frame changes nothing but ..." presupposes that it can be re-serialised: for every
+    service, on every accepting path of from_knx, to_knx of the decoded object returns (E2 evaluation of reader then
+    writer over a symbolic APDU).  A writer guard that the reader does not mirror (a count octet taken unchecked) makes
+    a delivered frame unserialisable - eg. when relaying or logging it."""
+    ev = SerEval(repo)
+    n = 0
+    for c in service_classes(repo):
+        if is_stub(repo, c):
+            continue
+        fk, tk = c.methods["from_knx"], c.methods["to_knx"]
+
+        def fn(run_, c=c, fk=fk, tk=tk):
+            run_.cons.iv["L"] = [2, 255]
+            raw = Bytes((Blob("in", Lin(0), Lin(0, {"L": 1})),))
+            o = ev.call_function(fk, [raw], {}, run_, ctx=c)
+            run_.notes.append("#decoded")
+            return o, ev.call_function(tk, [], {}, run_, self_val=o, ctx=c)
+        try:
+            paths = ev.paths(fn)
+        except Unsupported as u:
+            raise AnalysisError(f"{c.name}: codec outside the analysed fragment: {u}") from u
+        n += 1
+        refused = sorted({str(val)[:90] for outcome, val, r in paths if outcome != "return" and "#decoded" in r.notes})
+        chk.ob("received-pdu-can-be-serialised-again", tk.site(), not refused, f"{c.name}: " + ("to_knx accepts every object from_knx returns" if not refused else f"from_knx accepts PDUs whose object to_knx refuses ({'; '.join(refused)})"), key=f"reserialise|{c.name}")
+    chk.floor("services checked for re-serialisation of received PDUs", n, 70)
